@@ -194,7 +194,7 @@ PROPS = {
         level="proof",
         min_obligations=25,
         replay_family="c08",
-        bounded=[dict(family="c08", what="documented reading of each option-governed token in 4 syntactic positions, compared with a table written from the documentation", bound="50 (token, option set) pairs x 4 positions + 6 non-numeric digit-initial tokens with the option off")],
+        bounded=[dict(family="c08", what="documented reading of each option-governed token in 4 syntactic positions, compared with a table written from the documentation", bound="54 (token, option set) pairs x 4 positions + 6 non-numeric digit-initial tokens with the option off")],
         explanation="parse_token - the only place parser options are consulted - is extracted from /repo and verified against a declarative classifier written from "
                     "the property statement, one clause per option: letter-initial words (postfix keywords, nil under NilSymbol, t under TSymbol, else symbol, with the "
                     "token text = the bytes up to the first symbol terminator, decoded as UTF-8), `:name` under ColonPrefix, `#:name` under Octothorpe (error when off), "
@@ -267,7 +267,7 @@ PROPS = {
         replay_family="c12",
         bounded=[dict(family="c12", what="concatenation of printed values of every kind with every trivia string parses back to exactly those values (value_iter and datum_iter); "
                                          "the four iteration styles agree and terminate on malformed inputs",
-                      bound="12 values pairwise (1/3 sample) x 9 trivia strings x 4 placements + 22 malformed inputs")],
+                      bound="15 values pairwise (1/3 sample) x 9 trivia strings x 4 placements + 22 malformed inputs")],
         explanation="parse_whitespace is verified equal to the declarative trivia skipper skip_trivia (space, tab, CR, LF, FF and ;-comments incl. a "
                     "final comment without newline); the symbol scanners are verified against sym_run/sym_term, where sym_term is REQUIRED by the spec to "
                     "contain every trivia byte and every delimiter the printer can emit after a token, so inserting trivia at a token boundary cannot "
